@@ -43,6 +43,24 @@ PROPS = {
         "technique": "Lean 4 proof (loop invariant) + exhaustive differential correspondence",
     },
 }
+PROPS["C18"] = {
+    "lean": ["SioVerif.Props.C18"],
+    "components": ["store"],
+    "facts": [],
+    "rule": "both stores (generic lifecycle store, per-event store): exhaustively every sequence of <=4 (thorough: <=5) operations over a 12-op alphabet "
+            "(On/Once of 3 handlers, Off of one, two (both orders), absent and no handlers, OffAll, occurrence) followed by an occurrence; random histories of "
+            "<=40 ops over 3 events x 5 handlers; 2..64 goroutines racing occurrences over Once handlers; the exported On/Once/Off methods of Manager and client "
+            "socket. Non-trivial = >=2 occurrences or a multi-handler Off; distinct by request line.",
+    "trusted_base": EXT + ["every store method is one critical section (whole body under its mutex): an interleaving of concurrent calls is a sequence of the model's atomic operations; sampled by the concurrent rounds"],
+    "assumptions": ["handler identity is what the store compares: pointer (lifecycle store) / code pointer (event store); see known findings D12, D13"],
+    "partial": ["public lifecycle Off*(f) glue is a recorded finding (D12); closure aliasing of OffEvent is a recorded finding (D13)"],
+    "level_text": "Lean 4 theorems over an executable model of both handler stores, quantified over every history of operations (hence every interleaving of the "
+                  "atomic store methods): an On handler is handed out by every occurrence until an Off names it; a Once registration is handed out at most as often "
+                  "as it was registered (at most once); Off removes exactly the registrations it names (all of the event when given none), keeps the order of the "
+                  "rest and never changes another event. The model is compared with the real stores exhaustively on short and randomly on long histories.",
+    "level_note": "Trusted: Lean kernel, harness. Atomicity of the store methods is sampled by racing goroutines, not proved. Two open findings on the public glue (D12, D13).",
+    "technique": "Lean 4 proof over all operation histories + exhaustive/random differential correspondence",
+}
 
 NOT_APPLICABLE = [
 ]
